@@ -89,7 +89,8 @@ func init() {
 		subL = append(subL, 1<<31-1, 1<<31, 1<<32, 1<<62-1, 1<<62)
 		for era := uint32(0); era <= 1; era++ {
 			for _, l := range subL {
-				for _, c := range cuids {
+				// for the order axioms also ids that differ only in case and ids from the other classes of the id alphabet
+				for _, c := range append(append([]string{}, cuids...), "U000000000000001", "_u00000000000003") {
 					pts = append(pts, pnt{model.NewTimestamp(era, l, c, uint32(l%3)), &model.OperationID{Era: era, Lamport: l, CUID: c, Seq: l}})
 				}
 			}
